@@ -14,6 +14,7 @@ from ..schedsim import SimWorld, draw_world
 
 LEVEL = "exploration"
 
+PLOTS = ("taus_pexit", "taus_density_beta", "taus_histogram", "geom_beta_tr_hist", "spectra_histogram", "eas_optical_density", "eas_optical_histogram")
 GEOM = ["beta_rad", "theta_rad", "path_len"]
 COMMON = ["init_lat", "init_lon", "log_e_nu", "tauBeta", "tauLorentz", "tauEnergy", "showerEnergy", "tauExitProb", "altDec", "lenDec"]
 OPT_COLS = ["numPEs", "costhetaChEff"]
@@ -82,7 +83,7 @@ def canon(t):
     return list(t.colnames), cols, meta
 
 
-def run_compute(cfg, rng_seed, clock_s, world=None, psize=None):
+def run_compute(cfg, rng_seed, clock_s, world=None, psize=None, **kw):
     """One compute() under the seams.  Returns ('ok', table, clock_reads) or ('exc', exception, reads)."""
     import dask
 
@@ -95,10 +96,10 @@ def run_compute(cfg, rng_seed, clock_s, world=None, psize=None):
             try:
                 if world is None:
                     with dask.config.set(scheduler="synchronous"):
-                        t = compute(cfg)
+                        t = compute(cfg, **kw)
                 else:
                     with world.active(partition_knob=psize):
-                        t = compute(cfg)
+                        t = compute(cfg, **kw)
             except HarnessError:
                 raise
             except Exception as e:  # noqa: BLE001
@@ -274,6 +275,26 @@ def scn_full(ctx):
         stv = Rj.meta["simTime"][0] if isinstance(Rj.meta["simTime"], tuple) else Rj.meta["simTime"]
         if stv != seams.sim_time_string(Tj):
             raise Violation("c14.simtime", f"simTime {stv!r} is not the clock at start {seams.sim_time_string(Tj)!r}", sig="simTime")
+
+    # ---- presentation options must not change results: verbose logging, plot hooks ----------------
+    po = ch.draw(6, "presentation")
+    if po >= 4 and rows > 0:
+        kw = {"verbose": True} if po == 4 else {"to_plot": [PLOTS[ch.draw(len(PLOTS), "plot")]]}
+        import matplotlib.pyplot as plt
+
+        try:
+            stp, Rp, _ = run_compute(cfg, s, T0, **kw)
+        finally:
+            plt.close("all")
+        ctx.log(f"R_presentation {kw} -> {stp}")
+        ctx.probes["run_verbose" if po == 4 else "run_with_plot_hook"] += 1
+        if stp == "exc":
+            # the logging / plotting code's own trouble with this table is not this property's business
+            ctx.probes["presentation_option_raised"] += 1
+        else:
+            d = _diff(c0, canon(Rp))
+            if d:
+                raise Violation("c14.presentation_changes_results", f"with {kw} the results differ from the plain run with the same seed: {d}", sig="compute:" + ("verbose" if po == 4 else "plot"))
 
     # ---- (c) channel isolation ----------------------------------------------------------------
     if opt and rad and rows > 0:
